@@ -210,6 +210,7 @@ func (dl *datalog) writeRecord(data []byte, rt recordType) (uint16, uint32, erro
 	if err != nil {
 		return 0, 0, err
 	}
+	dl.curSeg.dirty = true
 	switch rt {
 	case recordTypePut:
 		dl.curSeg.meta.PutRecords++
@@ -224,11 +225,18 @@ func (dl *datalog) put(key []byte, value []byte) (uint16, uint32, error) {
 }
 
 func (dl *datalog) sync() error {
-	if dl.segments[dl.curSeg.id] != dl.curSeg {
-		// The current segment was removed by compaction and no record was written since.
-		return nil
+	// Unflushed records are not limited to the current segment: a segment sealed by a rollover or
+	// by compaction and segments replayed by recovery can have them too.
+	for _, seg := range dl.segments {
+		if seg == nil || !seg.dirty {
+			continue
+		}
+		if err := seg.Sync(); err != nil {
+			return err
+		}
+		seg.dirty = false
 	}
-	return dl.curSeg.Sync()
+	return nil
 }
 
 func (dl *datalog) close() error {
